@@ -1932,6 +1932,12 @@ class Node:
             for conn in list(self.connections.values()):
                 if conn.state in PEER_READY_STATES:
                     self.send_dpr(conn)
+                elif conn.state in (PEER_CONNECTING, PEER_CONNECTED):
+                    # has not completed its capabilities exchange: there is
+                    # nobody to take leave of, and it must not be taken into
+                    # service while the node is stopping
+                    self.close_connection_socket(
+                        conn, DISCONNECT_REASON_NODE_SHUTDOWN)
             abort_wait = False
             wait_until = time.time() + wait_timeout
             while len(self.connections) > 0 and not abort_wait:
